@@ -287,8 +287,16 @@ def list_files_setup(b):
     SCAN.cm_exit = lambda i, s, cm, out: iter([(s, out)])
 
     def scandir(interp, st, args, kwargs):
-        bad = st.copy()
-        yield bad, Raised(Exc('OSError'))
+        # the directory of the prefix does not exist (nothing stored there yet) / is not a directory
+        for cls in ('FileNotFoundError', 'NotADirectoryError'):
+            none = st.copy()
+            none.emit('scandir_nothing_there', exc=cls)
+            yield none, Raised(Exc(cls))
+        # it exists but cannot be listed (EACCES, EIO, EMFILE ...)
+        for cls in ('PermissionError', 'OSError'):
+            bad = st.copy()
+            bad.emit('scandir_refused', exc=cls)
+            yield bad, Raised(Exc(cls))
         yield st, sym.fresh(SCAN, 'scan')
 
     b.me_os = b.st.lookup('os')
@@ -310,8 +318,94 @@ def list_files_post(prop):
                 v = sym.lift(e.data['value'], STR).z
                 # C03.local.tmp_invisible (reader half): no listed name ends with '.tmp'
                 res.oblige(p.pc_at(e), f'{prop}.local.list.tmp_never_listed', z3.Not(z3.SuffixOf(z3.StringVal('.tmp'), v)))
+        for p in res.all_paths():
+            if p.events('scandir_refused'):
+                # a directory that exists but cannot be listed is an ERROR, never an empty listing: clean / delete take "not listed" for
+                # "not referenced" (D16: EACCES on snapshots/ made clean remove every chunk)
+                res.oblige(p, f'{prop}.local.list.unlistable_directory_is_an_error', z3.BoolVal(p.kind == 'raise'))
+            elif p.events('scandir_nothing_there') and p.kind != 'loop':
+                res.oblige(p, f'{prop}.local.list.missing_directory_is_an_empty_listing', z3.BoolVal(p.kind in ('return', 'normal') and not p.events('yield')))
         res.oblige([], f'{prop}.local.list.yield_sites_checked', z3.BoolVal(n >= 1))
     return post
+
+
+# ------------------------------------------------------------------ the one-line operations: delete / exists / download act on the named object and
+# report what really happened
+def small_setup(b):
+    env(b)
+
+    def unlink(interp, st, a, k):
+        missing_ok = k.get('missing_ok', a[1] if len(a) > 1 else False)
+        if missing_ok not in (True, False):
+            raise sym.Unsupported('unlink(missing_ok=<not a literal>)')
+        # the object is absent
+        gone = st.copy()
+        gone.emit('unlink_absent', recv=a[0])
+        yield gone, (None if missing_ok else Raised(Exc('FileNotFoundError')))
+        # the object is there but cannot be removed (EACCES / EPERM / EROFS / EIO)
+        denied = st.copy()
+        denied.emit('unlink_denied', recv=a[0])
+        yield denied, Raised(Exc('PermissionError'))
+        st.emit('unlink_done', recv=a[0])
+        yield st, None
+
+    def read_bytes(interp, st, a, k):
+        bad = st.copy()
+        bad.emit('read_failed', recv=a[0])
+        yield bad, Raised(Exc('OSError'))
+        v = sym.fresh(BYTES, 'file_bytes')
+        st.emit('read_bytes', recv=a[0], value=v)
+        yield st, v
+
+    def exists(interp, st, a, k):
+        v = sym.fresh(BOOL, 'exists')
+        st.emit('exists', arg=a[0], value=v)
+        yield st, v
+
+    PATH.attrs = dict(PATH.attrs, unlink=MethodModel('unlink', unlink), read_bytes=MethodModel('read_bytes', read_bytes),
+                      exists=MethodModel('exists', lambda i, s, a, k: exists(i, s, a, k)))
+    os_ = b.st.lookup('os')
+    b.bind('os', Obj('os', **dict(os_._attrs, path=Obj('os.path', **dict(os_._attrs['path']._attrs, exists=Model('exists', exists))))))
+
+
+def small_post(prop, which):
+    def post(res):
+        b = res.builder
+        target = path_join(b.me.get('path').z, b.st.lookup('name').z)
+        for p in res.paths:
+            if which == 'delete':
+                evs = [e for e in p.st.events if e.kind in ('unlink_absent', 'unlink_denied', 'unlink_done')]
+                ok = len(evs) >= 1
+                res.oblige(p, f'{prop}.local.delete.removes_the_named_object', z3.BoolVal(False) if not ok else
+                           z3.And(*[e.data['recv'].z == target for e in evs]))
+                if not ok:
+                    continue
+                last_ = evs[-1].kind
+                # "deleted" is never reported for an object that is still there: a refusal of the file system reaches the caller
+                # (delete_snapshots and clean remove chunks only after the snapshot objects are really gone)
+                if last_ == 'unlink_denied':
+                    res.oblige(p, f'{prop}.local.delete.a_refused_removal_is_reported', z3.BoolVal(p.kind == 'raise'))
+                else:
+                    # idempotent: an object that is already absent is not an error
+                    res.oblige(p, f'{prop}.local.delete.absent_or_removed_returns_normally', z3.BoolVal(p.kind in ('return', 'normal')))
+            elif which == 'exists':
+                evs = p.events('exists')
+                ok = len(evs) == 1 and p.kind == 'return'
+                res.oblige(p, f'{prop}.local.exists.answers_for_the_named_object', z3.BoolVal(False) if not ok else
+                           z3.And(sym.lift(evs[0].data['arg'], PATH).z == target, sym.lift(p.value, BOOL).z == evs[0].data['value'].z))
+            elif which == 'download':
+                ok_ev, bad_ev = p.events('read_bytes'), p.events('read_failed')
+                if bad_ev and not ok_ev:
+                    res.oblige(p, f'{prop}.local.download.failure_is_reported', z3.And(z3.BoolVal(p.kind == 'raise'), *[e.data['recv'].z == target for e in bad_ev]))
+                else:
+                    ok = len(ok_ev) == 1 and p.kind == 'return'
+                    res.oblige(p, f'{prop}.local.download.returns_the_bytes_of_the_named_object', z3.BoolVal(False) if not ok else
+                               z3.And(ok_ev[0].data['recv'].z == target, sym.lift(p.value, BYTES).z == ok_ev[0].data['value'].z))
+    return post
+
+
+def small_units(prop):
+    return [Unit(f'{prop}.local.{w}', LOCAL_PY, f'Local.{w}', small_setup, small_post(prop, w), prop=prop) for w in ('delete', 'exists', 'download')]
 
 
 def units(prop):
